@@ -2084,6 +2084,16 @@ func (c S3ApiController) PutActions(ctx *fiber.Ctx) error {
 				})
 		}
 
+		if _, _, _, err := backend.ParseCopySource(copySource); err != nil {
+			return SendXMLResponse(ctx, nil, err,
+				&MetaOpts{
+					Logger:      c.logger,
+					MetricsMng:  c.mm,
+					Action:      metrics.ActionUploadPartCopy,
+					BucketOwner: parsedAcl.Owner,
+				})
+		}
+
 		partNumber := int32(ctx.QueryInt("partNumber", -1))
 		if partNumber < 1 || partNumber > 10000 {
 			if c.debug {
@@ -2432,6 +2442,16 @@ func (c S3ApiController) PutActions(ctx *fiber.Ctx) error {
 			}
 			return SendXMLResponse(ctx, nil,
 				s3err.GetAPIError(s3err.ErrInvalidCopySource),
+				&MetaOpts{
+					Logger:      c.logger,
+					MetricsMng:  c.mm,
+					Action:      metrics.ActionCopyObject,
+					BucketOwner: parsedAcl.Owner,
+				})
+		}
+
+		if _, _, _, err := backend.ParseCopySource(copySource); err != nil {
+			return SendXMLResponse(ctx, nil, err,
 				&MetaOpts{
 					Logger:      c.logger,
 					MetricsMng:  c.mm,
@@ -3014,6 +3034,21 @@ func (c S3ApiController) DeleteObjects(ctx *fiber.Ctx) error {
 		key := ""
 		if obj.Key != nil {
 			key = *obj.Key
+		}
+		versionId := ""
+		if obj.VersionId != nil {
+			versionId = *obj.VersionId
+		}
+		if backend.HasDotSegment(key) || !backend.IsValidId(versionId) {
+			apiErr := s3err.GetAPIError(s3err.ErrInvalidRequest)
+			accessErr = apiErr
+			denied = append(denied, types.Error{
+				Key:       obj.Key,
+				VersionId: obj.VersionId,
+				Code:      &apiErr.Code,
+				Message:   &apiErr.Description,
+			})
+			continue
 		}
 		err = auth.VerifyAccess(ctx.Context(), c.be,
 			auth.AccessOptions{
